@@ -178,6 +178,22 @@ def _header_regex(kind, name):
     raise SliceError(f"unknown kind {kind}")
 
 
+def _find_impls(s, header_pattern):
+    """All impl blocks whose header matches (a type may have several impl blocks)."""
+    out = []
+    lo = 0
+    while True:
+        try:
+            start, brace = _find_impl(s, header_pattern, lo)
+        except SliceError:
+            break
+        out.append((start, brace))
+        lo = _item_end(s, start)
+    if not out:
+        raise SliceError(f"impl block matching /{header_pattern}/ not found")
+    return out
+
+
 def _find_impl(s, header_pattern, lo=0, hi=None):
     """Find the impl block whose header (text between `impl` and `{`) matches header_pattern."""
     pat = re.compile(r"(?<![A-Za-z0-9_])(?:unsafe\s+)?impl\b")
@@ -220,17 +236,20 @@ def extract(text, kind, name=None, impl=None, with_attrs=True):
         end = _item_end(text, start)
         a = _with_leading_attrs(text, start) if with_attrs else start
         return text[a:end]
-    lo, hi = 0, None
-    if impl is not None:
-        istart, brace = _find_impl(text, impl)
-        lo, hi = brace + 1, _item_end(text, istart) - 1
     rx = _header_regex(kind, name)
     cands = []
-    for m in _code_positions(text, rx, lo, hi):
-        # for free fns make sure we are not inside a `mod tests`/impl of the same name: accept the
-        # first occurrence at the lowest brace depth
-        depth = _brace_depth(text, lo, m.start())
-        cands.append((depth, m.start()))
+    lo, hi = 0, None
+    spans = [(0, None)]
+    if impl is not None:
+        spans = [(brace + 1, _item_end(text, istart) - 1) for istart, brace in _find_impls(text, impl)]
+    for lo, hi in spans:
+        for m in _code_positions(text, rx, lo, hi):
+            # for free fns make sure we are not inside a `mod tests`/impl of the same name: accept the
+            # first occurrence at the lowest brace depth
+            depth = _brace_depth(text, lo, m.start())
+            cands.append((depth, m.start()))
+        if cands:
+            break
     if not cands:
         where = f" in impl /{impl}/" if impl else ""
         raise SliceError(f"{kind} {name}{where} not found")
